@@ -358,6 +358,29 @@ def _check_table(acc, case, spell, gcol, hcol, fcol, f2col):
                 fail("stdrenyi2_entropy", exp, r, note="base=%r" % base)
                 return
             acc.ok()
+    # the documented positional order (df, features, by, base)
+    acc.cls("positional-base")
+    r = acc.call(pyrepseq.renyi2_entropy, df, on, None, 10.0)
+    e10 = NAN if float(pc_all) != float(pc_all) else (math.inf if pc_all == 0 else -math.log(float(pc_all)) / math.log(10.0))
+    rb = acc.call(pyrepseq.renyi2_entropy, df, on, by, 10.0)
+    cb = ref_conditional(keys, rows, None)
+    eb = NAN if cb != cb else (math.inf if cb == 0 else -math.log(cb) / math.log(10.0))
+    if raised(r) or not feq(r, e10) or raised(rb) or not feq(rb, eb):
+        fail("renyi2_entropy/positional-base", (e10, eb), (r, rb))
+        return
+    acc.ok()
+    if f2col is None:
+        # a float feature in which the same number is stored as 0.0 and as -0.0 (e.g. after rounding): one value, not two
+        acc.cls("negative-zero-feature")
+        fl = [(0.0 if i % 2 else -0.0) if v == fcol[0] else 1.5 for i, v in enumerate(fcol)]
+        dfl = df.assign(score=fl)
+        for fn, args, kw, e in ((pyrepseq.renyi2_entropy, (dfl, "score"), {"base": 2.0}, math.inf if pc_all == 0 else -math.log2(float(pc_all))),
+                                (pyrepseq.pc_conditional, (dfl, by, "score"), {}, ref_conditional(keys, rows, None))):
+            r = acc.call(fn, *args, **kw)
+            if raised(r) or not feq(r, e):
+                fail("%s/float-feature-with-negative-zero" % fn.__name__, e, r, note="feature values %r" % (fl,))
+                return
+        acc.ok()
     r = acc.call(pyrepseq.renyi2_entropy, df, on, base=None)
     exp = math.inf if pc_all == 0 else -math.log(float(pc_all))
     if raised(r) or not feq(r, exp):
